@@ -69,6 +69,15 @@ where
                 round_to(v, T::IS_F32)
             })
             .collect();
+        // one program in eight is evaluated far from the unit scale (nodes whose model leaves the
+        // float range, and everything downstream, are skipped and counted below)
+        let wide = pi % 8 == 5;
+        let x: Vec<f64> = if wide {
+            let kmax = if T::IS_F32 { 4 } else { 8 };
+            x.iter().map(|v| round_to(v * (10.0f64).powi(rng.int(-kmax, kmax) as i32), T::IS_F32)).collect()
+        } else {
+            x
+        };
         let cfg = GenCfg { max_nodes: 4 + rng.below(28), ninputs, f32: T::IS_F32, selects: true, allow_sph: true };
         let (prog, _vals) = generate(&mut rng, &cfg, &x);
         let style = rng.below(STYLES.len());
@@ -108,7 +117,7 @@ where
             }
             let g = parts(&got[ni], &shape);
             let opn = node.opname();
-            let class = format!("{}|{}|depth{}", opn, tname, depths[ni].min(6));
+            let class = format!("{}|{}|depth{}{}", opn, tname, depths[ni].min(6), if wide { "|wide-inputs" } else { "" });
             acc.observe(&class, depths[ni] >= 2);
             acc.count(&format!("op[{}]", opn), 1);
             let mut worst = 0.0f64;
